@@ -170,6 +170,7 @@ type vrcStep struct {
 	invalid bool      // the configuration that would result violates the schema: the step has to be rejected, nothing changes
 	orphan  bool      // with json == "": the intent is given up with the orphan flag (removed from the intended store only, the device keeps its values)
 	device  bool      // not a transaction: the device holds this configuration on its own (it is in running, no intent defines it)
+	carries string    // with json == "": updates the delete (or orphan) request carries nevertheless
 }
 
 type vrcLive struct {
@@ -249,6 +250,8 @@ func TestVerifReplayConverge(t *testing.T) {
 		"the only intent orphaned":                                                        {{name: "A", prio: 10, json: ifTwo}, {name: "A", prio: 10, json: "", orphan: true}},
 		"a value the device held on its own is overwritten, the transaction is cancelled": {{device: true, json: ifA}, {name: "A", prio: 10, json: ifB, cancel: true}},
 		"a stronger intent takes the choice over, the transaction is cancelled":           {{name: "O2", prio: 10, json: case1}, {name: "O1", prio: 5, json: case2, cancel: true}},
+		"delete request that carries updates":                                             {{name: "A", prio: 10, json: ifA}, {name: "B", prio: 20, json: pattern}, {name: "A", prio: 10, json: "", carries: ifTwo}},
+		"orphan request that carries the current content":                                 {{name: "A", prio: 10, json: ifA}, {name: "A", prio: 10, json: "", orphan: true, carries: ifA}},
 		"deleted intent cancelled":                                                        {{name: "A", prio: 10, json: ifTwo}, {name: "A", prio: 10, json: "", cancel: true}},
 	}
 	// several intents in one transaction: what the intended store holds of any of them is a former version. The order in
@@ -357,6 +360,9 @@ func TestVerifReplayConverge(t *testing.T) {
 				if x.json == "" {
 					req.Delete = true
 					req.Orphan = x.orphan
+					if x.carries != "" {
+						req.Update = []*sdcpb.Update{{Path: &sdcpb.Path{}, Value: &sdcpb.TypedValue{Value: &sdcpb.TypedValue_JsonVal{JsonVal: []byte(x.carries)}}}}
+					}
 					if x.orphan {
 						orphaned = true
 					}
